@@ -365,67 +365,6 @@ example :
     (step current (runHist current (step current (freshWorld demoMol) (.enter 0) []).w h) (.exitOk 0) []).recalc = [1, 3, 2] := by
   decide +kernel
 
-/-- histories of the reachable-state hydrogen theorem for object `i`: every step succeeds and every operation on object `i`
-is covered in the state it is applied in (`hOpS`) — outside a transaction: adding / deleting an ordinary bond, public
-`fix_structure(…)`, `calc_labels`, `fix_stereo`, `clean_stereo`, reads, flushes, coordinate / metadata writes, `copy`,
-`__enter__`; inside: direct charge / radical writes, adding / deleting an ordinary bond, reads, `fix_stereo`, `clean_stereo`,
-`calc_labels`, flushes, coordinate / metadata writes, and both `__exit__` paths.  Operations on other objects: unrestricted. -/
-def hydroAdm (i : Nat) : World → List (Op × List String) → Bool
-  | _, [] => true
-  | w, (op, obs) :: rest =>
-    (op.target != i || (match w.objs[i]? with
-      | some o => hOpS o op
-      | none => false)) &&
-    (step current w op obs).err.isNone && hydroAdm i (step current w op obs).w rest
-
-/-- **hydrogens_step / hydrogens_reachable** (today's code): induction over `hydroAdm` histories — object `i` keeps `HObj`:
-outside a transaction nothing is pending and every stored hydrogen count is fresh; inside, the transaction invariant `TxH`
-holds and the snapshot's hydrogens are fresh. -/
-theorem hydrogens_reachable (i : Nat) :
-    ∀ (h : List (Op × List String)) (w : World) (o : Obj), w.objs[i]? = some o → HObj o → hydroAdm i w h = true →
-      ∃ o', (runHist current w h).objs[i]? = some o' ∧ HObj o' := by
-  intro h
-  induction h with
-  | nil => intro w o hg ho _; exact ⟨o, hg, ho⟩
-  | cons x rest ih =>
-    intro w o hg ho hn
-    obtain ⟨op, obs⟩ := x
-    simp only [hydroAdm, hg, Bool.and_eq_true, Bool.or_eq_true, bne_iff_ne, ne_eq, Option.isNone_iff_eq_none] at hn
-    have hop : op.target = i → hOpS o op = true := by
-      intro ht'
-      rcases hn.1.1 with h1 | h1
-      · exact absurd ht' h1
-      · exact h1
-    obtain ⟨o1, hg1, ho1⟩ := step_hobj tables_ok_current hg ho hop hn.1.2
-    simp only [runHist]
-    exact ih _ o1 hg1 ho1 hn.2
-
-/-- **HydrogensFresh_reachable_partial**: the part of `HydrogensFresh` proved as a reachable-state statement.  From any
-molecule, after any `hydroAdm` history — any number of transactions (successful or aborted), attribute writes and ordinary
-bond edits inside them in any order, ordinary bond edits and public `fix_structure` outside, reads anywhere — the seed
-object, whenever it is outside a transaction, has no stale hydrogen count and nothing pending.
-Excluded (exactly the complement of `hOpS`): `add_atom` / `delete_atom`, order-8 bond edits, `remap`, `union`,
-`substructure`, the private `_skip_calculation` flag outside a block, attribute writes outside a block (out of the
-property's domain), `copy` / nested `with` inside a block, and a public `fix_structure()` inside a block (the mechanism of
-both known findings, `Findings.C13.partial_tight_*`). -/
-theorem HydrogensFresh_reachable_partial (m : Mol) (h : List (Op × List String)) (ha : hydroAdm 0 (freshWorld m) h = true) :
-    ∃ o, (runHist current (freshWorld m) h).objs[0]? = some o ∧
-      (o.backup = some none → hStale o.toCore = [] ∧ o.changed = some none) := by
-  obtain ⟨o, hg, ho⟩ := hydrogens_reachable 0 h (freshWorld m) (freshObj m 0) rfl (freshObj_hobj m 0) ha
-  exact ⟨o, hg, fun hb => ⟨(allFresh_iff _).mpr (ho.out hb).2, (ho.out hb).1⟩⟩
-
-/-- non-vacuous: ring closure outside a block; a block with a charge write, a bond deletion and a write-back that is
-committed; a block that is aborted; `fix_structure`; a copy — and the final object is outside a transaction -/
-example :
-    let h : List (Op × List String) := [(.addBond 0 1 3 1 false, []), (.read 0 "sssr", ["sssr"]), (.enter 0, []),
-      (.setCharge 0 3 1, []), (.delBond 0 1 2 false, []), (.setRadical 0 2 true, []), (.setRadical 0 2 false, []), (.exitOk 0, []),
-      (.enter 0, []), (.addBond 0 1 2 2 false, []), (.setCharge 0 3 0, []), (.exitExc 0, []), (.fixStructure 0 true, []),
-      (.copy 0 false false, []), (.addAtom 1 6 none false, [])]
-    hydroAdm 0 (freshWorld demoMol) h = true ∧
-    ((runHist current (freshWorld demoMol) h).objs.map fun o => (o.backup == some none, o.mol.bondsCount, hStale o.toCore)) =
-      [(true, 2, []), (true, 2, [])] := by
-  decide +kernel
-
 /-! ## the adjacency stays symmetric -/
 
 /-- **wf_preserved** (edits): each raw graph edit the interpreter installs — `add_atom`, `add_bond`, `delete_atom`,
@@ -656,6 +595,72 @@ def labHist : List (Op × List String) :=
 example : demoMol.WF = true ∧ admissibleL current (freshWorld demoMol) labHist = true ∧
     ((runHist current (freshWorld demoMol) labHist).objs.map fun o => (o.mol.ids.length, inTxn o, labelsFresh o.toCore)) =
       [(4, false, true), (3, true, false), (7, false, true), (7, false, true)] := by
+  decide +kernel
+
+/-! ## hydrogens: the reachable-state part -/
+
+/-- histories of the reachable-state hydrogen theorem for object `i`: every step succeeds and every operation on object `i`
+is covered in the state it is applied in (`hOpS`) — outside a transaction: `add_atom`, adding / deleting an ordinary bond, public
+`fix_structure(…)`, `calc_labels`, `fix_stereo`, `clean_stereo`, reads, flushes, coordinate / metadata writes, `copy`,
+`__enter__`; inside: `add_atom`, direct charge / radical writes, adding / deleting an ordinary bond, reads, `fix_stereo`, `clean_stereo`,
+`calc_labels`, flushes, coordinate / metadata writes, and both `__exit__` paths.  Operations on other objects: unrestricted. -/
+def hydroAdm (i : Nat) : World → List (Op × List String) → Bool
+  | _, [] => true
+  | w, (op, obs) :: rest =>
+    (op.target != i || (match w.objs[i]? with
+      | some o => hOpS o op
+      | none => false)) &&
+    (step current w op obs).err.isNone && hydroAdm i (step current w op obs).w rest
+
+/-- **hydrogens_step / hydrogens_reachable** (today's code): induction over `hydroAdm` histories — object `i` keeps `HObj`:
+outside a transaction nothing is pending and every stored hydrogen count is fresh; inside, the transaction invariant `TxH`
+holds and the snapshot's hydrogens are fresh. -/
+theorem hydrogens_reachable (i : Nat) :
+    ∀ (h : List (Op × List String)) (w : World) (o : Obj), WorldWF w → w.objs[i]? = some o → HObj o → hydroAdm i w h = true →
+      ∃ o', (runHist current w h).objs[i]? = some o' ∧ HObj o' := by
+  intro h
+  induction h with
+  | nil => intro w o _ hg ho _; exact ⟨o, hg, ho⟩
+  | cons x rest ih =>
+    intro w o hww hg ho hn
+    obtain ⟨op, obs⟩ := x
+    simp only [hydroAdm, hg, Bool.and_eq_true, Bool.or_eq_true, bne_iff_ne, ne_eq, Option.isNone_iff_eq_none] at hn
+    have hop : op.target = i → hOpS o op = true := by
+      intro ht'
+      rcases hn.1.1 with h1 | h1
+      · exact absurd ht' h1
+      · exact h1
+    obtain ⟨o1, hg1, ho1⟩ := step_hobj tables_ok_current hg ho (hww o (mem_of_get hg)).1 hop hn.1.2
+    simp only [runHist]
+    exact ih _ o1 (wf_step graph_ok_current w op obs hww) hg1 ho1 hn.2
+
+/-- **HydrogensFresh_reachable_partial**: the part of `HydrogensFresh` proved as a reachable-state statement.  From any
+well-formed molecule, after any `hydroAdm` history — any number of transactions (successful or aborted), atom additions,
+attribute writes and ordinary bond edits inside them in any order, atom additions, ordinary bond edits and public
+`fix_structure` outside, reads anywhere — the seed
+object, whenever it is outside a transaction, has no stale hydrogen count and nothing pending.
+Excluded (exactly the complement of `hOpS`): `delete_atom`, order-8 bond edits, `remap`, `union`,
+`substructure`, the private `_skip_calculation` flag outside a block, attribute writes outside a block (out of the
+property's domain), `copy` / nested `with` inside a block, and a public `fix_structure()` inside a block (the mechanism of
+both known findings, `Findings.C13.partial_tight_*`). -/
+theorem HydrogensFresh_reachable_partial (m : Mol) (hm : m.WF = true) (h : List (Op × List String))
+    (ha : hydroAdm 0 (freshWorld m) h = true) :
+    ∃ o, (runHist current (freshWorld m) h).objs[0]? = some o ∧
+      (o.backup = some none → hStale o.toCore = [] ∧ o.changed = some none) := by
+  obtain ⟨o, hg, ho⟩ := hydrogens_reachable 0 h (freshWorld m) (freshObj m 0) (fresh_world_w3 m hm).wf rfl (freshObj_hobj m 0) ha
+  exact ⟨o, hg, fun hb => ⟨(allFresh_iff _).mpr (ho.out hb).2, (ho.out hb).1⟩⟩
+
+/-- non-vacuous: ring closure outside a block; a block with a charge write, a bond deletion and a write-back that is
+committed; a block that is aborted; `fix_structure`; a copy — and the final object is outside a transaction -/
+example :
+    let h : List (Op × List String) := [(.addBond 0 1 3 1 false, []), (.read 0 "sssr", ["sssr"]), (.enter 0, []),
+      (.setCharge 0 3 1, []), (.delBond 0 1 2 false, []), (.setRadical 0 2 true, []), (.setRadical 0 2 false, []), (.exitOk 0, []),
+      (.enter 0, []), (.addBond 0 1 2 2 false, []), (.setCharge 0 3 0, []), (.exitExc 0, []), (.fixStructure 0 true, []),
+      (.copy 0 false false, []), (.addAtom 1 6 none false, []), (.addAtom 0 7 none false, []), (.enter 0, []), (.addAtom 0 8 (some 9) false, []),
+      (.addBond 0 9 4 1 false, []), (.setCharge 0 9 1, []), (.exitOk 0, [])]
+    hydroAdm 0 (freshWorld demoMol) h = true ∧
+    ((runHist current (freshWorld demoMol) h).objs.map fun o => (o.backup == some none, o.mol.bondsCount, hStale o.toCore)) =
+      [(true, 3, []), (true, 2, [])] := by
   decide +kernel
 
 end ChythonModel.Props.C13
